@@ -182,7 +182,7 @@ var c07Model = porcupine.Model{
 				}
 			}
 			return write(data, "text/composed", nil, true)
-		case "copy":
+		case "copy", "copyx":
 			return write(in.SrcData["s1"], "text/plain", map[string]string{"src": "s1"}, false)
 		case "patch":
 			if !st.Exists {
@@ -374,6 +374,10 @@ func runC07Case(c *C07Case, ch sched.Chooser) (c07Stats, string) {
 			return st, fmt.Sprintf("setup upload of %s: HTTP %d %s", n, resp.Status, resp.Body)
 		}
 	}
+	if resp := e.Do(&gcs.Req{Method: "POST", Path: "/upload/storage/v1/b/b2/o?uploadType=multipart", Headers: map[string]string{"Content-Type": "multipart/related; boundary=XX"},
+		Body: gcs.BS("--XX\r\nContent-Type: application/json\r\n\r\n{\"name\":\"s1\",\"contentType\":\"text/plain\",\"metadata\":{\"src\":\"s1\"}}\r\n--XX\r\nContent-Type: text/plain\r\n\r\n" + srcData["s1"] + "\r\n--XX--\r\n")}); resp.Status != 200 {
+		return st, fmt.Sprintf("setup upload of b2/s1: HTTP %d", resp.Status)
+	}
 	var hist []porcupine.Operation
 	var tick int64
 	var mu sync.Mutex
@@ -438,6 +442,8 @@ func runC07Case(c *C07Case, ch sched.Chooser) (c07Stats, string) {
 				Body: gcs.BS(`{"sourceObjects":[` + strings.Join(sos, ",") + `],"destination":{"contentType":"text/composed"}}`)})
 		case "copy":
 			resp = e.Do(&gcs.Req{Method: "POST", Path: gcs.ObjPath("bkt", "s1") + "/rewriteTo/b/bkt/o/" + gcs.EscName(c07T), Body: "{}"})
+		case "copyx": // from another bucket
+			resp = e.Do(&gcs.Req{Method: "POST", Path: gcs.ObjPath("b2", "s1") + "/rewriteTo/b/bkt/o/" + gcs.EscName(c07T), Body: "{}"})
 		case "getmeta":
 			resp = e.Do(&gcs.Req{Method: "GET", Path: gcs.ObjPath("bkt", c07T)})
 		case "getmedia":
@@ -536,7 +542,7 @@ func genC07(free bool) *rapid.Generator[C07Case] {
 	return rapid.Custom(func(t *rapid.T) C07Case {
 		c := C07Case{Store: rapid.SampledFrom(gcs.Stores).Draw(t, "store"), Present: rapid.IntRange(0, 3).Draw(t, "present") > 0}
 		req := rapid.Custom(func(t *rapid.T) C07Req {
-			r := C07Req{K: rapid.SampledFrom([]string{"upload", "upload", "upload", "patch", "patch", "delete", "compose", "copy", "getmeta", "getmedia", "getmedia"}).Draw(t, "k")}
+			r := C07Req{K: rapid.SampledFrom([]string{"upload", "upload", "upload", "patch", "patch", "delete", "compose", "copy", "copyx", "getmeta", "getmedia", "getmedia"}).Draw(t, "k")}
 			switch r.K {
 			case "upload":
 				r.Proto = rapid.SampledFrom([]string{"media", "multipart"}).Draw(t, "proto")
@@ -586,7 +592,7 @@ func runC07Sched(c C07Case, ev *vt.Ev) *vt.Failure {
 
 func TestC07Sched(t *testing.T) {
 	vt.Prop[C07Case]{ID: "C07", Test: "TestC07Sched",
-		Rule: "owned schedules: 2-4 concurrent HTTP clients x 1-2 requests on ONE object (uploads media/multipart conditioned on the initial generation / non-existence / metageneration, patches with a distinct metadata key per client, deletes, composes from {S1,S2,T}, copies S1->T, metadata and media GETs), both stores; yield points at every Store method (decorator), every lock-map step (enabledness known) and inside the file store's Add/Delete; rapid-drawn shrinkable choice list; the whole history incl. final reads is checked with porcupine against a sequential object model (conditions judged at the linearization point, each write response must describe the object that request created, each read must equal one state in full); non-trivial = a request was parked between its precondition read and its store mutation (or inside filestore.Add/Delete) while another client ran, and two mutations overlapped",
+		Rule: "owned schedules: 2-4 concurrent HTTP clients x 1-2 requests on ONE object (uploads media/multipart conditioned on the initial generation / non-existence / metageneration, patches with a distinct metadata key per client, deletes, composes from {S1,S2,T}, copies S1->T within the bucket and from another bucket, metadata and media GETs), both stores; yield points at every Store method (decorator), every lock-map step (enabledness known) and inside the file store's Add/Delete; rapid-drawn shrinkable choice list; the whole history incl. final reads is checked with porcupine against a sequential object model (conditions judged at the linearization point, each write response must describe the object that request created, each read must equal one state in full); non-trivial = a request was parked between its precondition read and its store mutation (or inside filestore.Add/Delete) while another client ran, and two mutations overlapped",
 		Gen:  genC07(false), Run: runC07Sched}.Main(t)
 }
 
